@@ -263,7 +263,7 @@ func genShared(c *simkit.Choices) *shared {
 	s.types = append(s.types, te0)
 	s.vals = append(s.vals, te0.Gen(c))
 	for i, n := 0, 1+c.N(2); i < n; i++ {
-		te := model.TypeByName([]string{"InlineIfc", "InlineFolder", "InlineMap", "InlineTyped", "WithFolder", "InlineIfc"}[c.N(6)])
+		te := model.TypeByName([]string{"InlineIfc", "InlineFolder", "InlineMap", "InlineTyped", "WithFolder", "InlineIfc", "OmitTwins", "OmitTwins", "OmitIfc"}[c.N(9)])
 		s.foldTypes = append(s.foldTypes, te)
 		s.foldVals = append(s.foldVals, te.Gen(c))
 	}
